@@ -40,7 +40,8 @@
 (***************************************************************************)
 EXTENDS Naturals, Integers, Sequences, FiniteSets, TLC, Json
 
-CONSTANTS Thread, Creator, MaxHandles, MaxOps, Defects, OpKinds
+CONSTANTS Thread, Creator, MaxHandles, MaxOps, Defects, OpKinds,
+          TrackCov     \* TRUE: remember which classes of count-word updates the schedule went through (coverage-directed generation)
 None == "none"
 
 VARIABLES owner, local, cnt, merged, queued,   \* the RcWord
@@ -50,11 +51,12 @@ VARIABLES owner, local, cnt, merged, queued,   \* the RcWord
           pc, old, new, key, ops,
           exitq, lockU, lockM, mph, lost,       \* merge bookkeeping (see QueueHandle below)
           retries,                              \* ghost: failed CAS attempts so far (capped), for coverage-directed generation
+          cov,                                  \* ghost: classes <<step, merged, queued, sign of the counter>> of successful non-owner decrements / increments
           hist                                  \* schedule so far (hidden by VIEW)
 vars == <<owner, local, cnt, merged, queued, queue, unreg, registered, alive, h, freed, uaf, excl,
-          pc, old, new, key, ops, exitq, lockU, lockM, mph, lost, retries, hist>>
+          pc, old, new, key, ops, exitq, lockU, lockM, mph, lost, retries, cov, hist>>
 view == <<owner, local, cnt, merged, queued, queue, unreg, registered, alive, h, freed, uaf, excl,
-          pc, old, new, key, ops, exitq, lockU, lockM, mph, lost, retries>>
+          pc, old, new, key, ops, exitq, lockU, lockM, mph, lost, retries, cov>>
 
 RECURSIVE SumH(_)
 SumH(s) == IF s = {} THEN 0 ELSE LET x == CHOOSE x \in s : TRUE IN h[x] + SumH(s \ {x})
@@ -69,7 +71,7 @@ Init == /\ owner = Creator /\ local = 1 /\ cnt = 0 /\ merged = FALSE /\ queued =
         /\ pc = [t \in Thread |-> "idle"] /\ old = [t \in Thread |-> Word] /\ new = [t \in Thread |-> Word]
         /\ key = [t \in Thread |-> None] /\ ops = 0 /\ hist = << >>
         /\ exitq = [t \in Thread |-> 0] /\ lockU = None /\ lockM = None
-        /\ mph = [t \in Thread |-> "none"] /\ lost = 0 /\ retries = 0
+        /\ mph = [t \in Thread |-> "none"] /\ lost = 0 /\ retries = 0 /\ cov = {}
 
 \* every step that dereferences the box; uaf remembers the FIRST point that touched a destroyed box
 Touch(p) == uaf' = (IF uaf = "" /\ freed > 0 THEN p ELSE uaf)
@@ -359,7 +361,13 @@ Step(t) == \/ Start(t) \/ IncReadTid(t) \/ FInc(t) \/ SIncLoad(t) \/ SIncCas(t)
            \/ Exit(t)
 \* a CAS of thread t is about to fail (its expected word is stale): coverage ghost only
 CasFail(t) == pc[t] \in {"SINC_CAS", "FDEC_CAS", "SDEC_CAS", "MERGE_CAS"} /\ old[t] # Word
-Next == \E t \in Thread : Step(t) /\ retries' = (IF CasFail(t) /\ retries < 2 THEN retries + 1 ELSE retries)
+\* the class of a successful update of the shared count word by a slow (non-owner / post-merge) decrement or increment
+Sgn(n) == IF n < 0 THEN "neg" ELSE IF n = 0 THEN "zero" ELSE "pos"
+CovClass(t) == IF TrackCov /\ pc[t] \in {"SDEC_CAS", "SINC_CAS"} /\ old[t] = Word
+               THEN {<<pc[t], merged, queued, Sgn(cnt)>>} ELSE {}
+Next == \E t \in Thread : /\ Step(t)
+                          /\ retries' = (IF CasFail(t) /\ retries < 2 THEN retries + 1 ELSE retries)
+                          /\ cov' = cov \cup CovClass(t)
 Spec == Init /\ [][Next]_vars
 
 -----------------------------------------------------------------------------
